@@ -1,8 +1,11 @@
 """Run the registered quick checks against every seeded change in /verif/seeded/<id>/ (patch.diff applied to a scratch
-worktree of /repo under /tmp, removed afterwards).  Usage: run_seeded.py [ids...]   Writes seeded/RESULTS.json."""
+worktree of /repo under /tmp, removed afterwards).  Usage: run_seeded.py <id> ... | --all   Writes seeded/RESULTS.json."""
 import json, os, subprocess, sys, shutil
 V = os.path.dirname(os.path.dirname(os.path.abspath(__file__)))
-ids = sys.argv[1:] or sorted(d for d in os.listdir(os.path.join(V, 'seeded')) if os.path.isdir(os.path.join(V, 'seeded', d)))
+if not sys.argv[1:]:
+    sys.exit('usage: run_seeded.py <id> ... | --all')
+ids = (sorted(d for d in os.listdir(os.path.join(V, 'seeded')) if os.path.isdir(os.path.join(V, 'seeded', d)))
+       if sys.argv[1:] == ['--all'] else sys.argv[1:])
 respath = os.environ.get('SEEDED_RESULTS') or os.path.join(V, 'seeded', 'RESULTS.json')
 results = json.load(open(respath)) if os.path.exists(respath) else {}
 for sid in ids:
